@@ -1,6 +1,9 @@
 // C19: instantiates the histogram members and free functions for the AST rules
 #include "vf_common.hpp"
 #include <boost/gil/histogram.hpp>
+#include <boost/gil/extension/histogram/std.hpp>
+#include <map>
+#include <array>
 using namespace vf;
 void inst(gray8_view_t const& g, rgb8_view_t const& c){
   histogram<int> h1; histogram<int, int, int> h3;
@@ -12,4 +15,10 @@ void inst(gray8_view_t const& g, rgb8_view_t const& c){
   auto c1 = cumulative_histogram(h1); auto c3 = cumulative_histogram(h3); (void)c1; (void)c3;
   auto s1 = h3.sub_histogram<0, 2>(); auto s2 = h3.sub_histogram<0>(std::make_tuple(1, 0, 0), std::make_tuple(5, 0, 0)); (void)s1; (void)s2;
   h1.normalize(); h3.normalize(); (void)h1.sum();
+  std::vector<int> hv; std::array<int, 64> ha; std::map<int, int> hm;
+  fill_histogram(g, hv); fill_histogram(g, hv, true); fill_histogram(g, ha); fill_histogram(g, hm, true);
+  std::vector<long> hv2; std::array<long, 16> ha2; std::map<long, long> hm2;
+  fill_histogram(c, hv2); fill_histogram(c, ha2, true); fill_histogram(c, hm2);
+  auto cv = cumulative_histogram(hv); auto ca = cumulative_histogram(ha); auto cm = cumulative_histogram(hm); (void)cv; (void)ca; (void)cm;
+  auto cv2 = cumulative_histogram(hv2); auto ca2 = cumulative_histogram(ha2); auto cm2 = cumulative_histogram(hm2); (void)cv2; (void)ca2; (void)cm2;
 }
